@@ -43,7 +43,7 @@ def raised_classes(model: Model) -> Tuple[Set[str], Set[str]]:
     return comp, ev
 
 
-def scenario(model: Model, source: str, debug: bool, pretty: bool, compile_out: str, load_out: str, find_out: str) -> List[Any]:
+def scenario(model: Model, source: str, debug: bool, pretty: bool, compile_out: str, load_out: str, find_out: str, dump_out: str = "ok") -> List[Any]:
     fn = model.func("cli.handle_path_command")
     comp = model.func("environment.JSONPathEnvironment.compile")
 
@@ -87,7 +87,29 @@ def scenario(model: Model, source: str, debug: bool, pretty: bool, compile_out: 
                 raise AbsRaise(e, None)
             return data
 
+        def dump_hook(interp: Interp, a: List[Any], kw: Dict[str, Any], n: Any) -> Any:
+            # A1: json.dump writes chunk by chunk; serialising values nested about as deeply as the interpreter's stack
+            # raises RecursionError after part of the text has been written
+            if dump_out != "ok":
+                interp.ctx.log.append(("extcall", "json.dump", tuple(a), tuple(sorted(kw.items())), interp.site(n)))
+                seen["partial"] = True
+                e = HostExc(dump_out, "maximum recursion depth exceeded")
+                seen["exc"] = e
+                raise AbsRaise(e, None)
+            return NotImplemented
+
+        def dumps_hook(interp: Interp, a: List[Any], kw: Dict[str, Any], n: Any) -> Any:
+            seen["events"].append("dumps")
+            if dump_out != "ok":
+                e = HostExc(dump_out, "maximum recursion depth exceeded")
+                seen["exc"] = e
+                raise AbsRaise(e, None)
+            return NotImplemented
+
         def opaque_hook(interp: Interp, recv: Any, name: str, a: List[Any], kw: Dict[str, Any], n: Any) -> Any:
+            if (recv is outfile and name == "write") or (name == "__call__" and recv is outfile.children.get("write")):
+                seen.setdefault("out_writes", []).append(a[0] if a else None)
+                return Const(None)
             if (recv is qfile and name == "read") or (name == "__call__" and recv is qfile.children.get("read")):
                 return ftext
             if recv is compiled and name in ("find", "apply"):
@@ -101,7 +123,7 @@ def scenario(model: Model, source: str, debug: bool, pretty: bool, compile_out: 
             return NotImplemented
 
         it.hooks[comp.qualname] = compile_hook
-        it.hooks["__external__"] = {"json.load": load_hook}
+        it.hooks["__external__"] = {"json.load": load_hook, "json.dump": dump_hook, "json.dumps": dumps_hook}
         it.hooks["__opaque_call__"] = opaque_hook
         r = it.call_function(fn, [args], {}, None)
         return r, seen, dict(qtext=qtext, ftext=ftext, data=data, result=result, outfile=outfile, infile=infile, compiled=compiled)
@@ -292,8 +314,28 @@ def check(model: Model, report: Report) -> None:
                         continue
                     r, seen, m = run.value
                     a = analyse(run)
+                    form_ok = False
                     if a["writes"] or a["exits"]:
                         bad = "writes to stderr / exits on valid input"
+                    elif not a["dumps"] and len(seen.get("out_writes", [])) == 1 and isinstance(seen["out_writes"][0], Term) and seen["out_writes"][0].op == "json.dumps":
+                        # args.output.write(json.dumps(values, indent=...)): the same text, serialised before it is written
+                        t = seen["out_writes"][0]
+                        pos = [x for x in t.args if not (isinstance(x, tuple) and len(x) == 2 and isinstance(x[0], str))]
+                        kw = {x[0]: x[1] for x in t.args if isinstance(x, tuple) and len(x) == 2 and isinstance(x[0], str)}
+                        vals = pos[0] if pos else None
+                        okv = isinstance(vals, Term) and vals.op == "call" and vals.args[1] == "values" and vals.args[0] is m["result"] and not vals.args[2]
+                        ind = kw.get("indent", pos[1] if len(pos) > 1 else Const(None))
+                        if not okv:
+                            bad = f"writes the serialisation of {describe(vals)!r}, expected find(...).values()"
+                        elif pretty and not (isinstance(ind, Const) and isinstance(ind.value, int) and ind.value > 0):
+                            bad = f"--pretty uses indent={describe(ind)!r}"
+                        elif not pretty and not (isinstance(ind, Const) and ind.value is None):
+                            bad = f"without --pretty indent is {describe(ind)!r}, expected None"
+                        elif set(kw) - {"indent"}:
+                            bad = f"json.dumps is given extra options {sorted(set(kw) - {'indent'})} (output would differ from the JSON array of the values)"
+                        form_ok = not bad
+                    elif seen.get("out_writes"):
+                        bad = f"writes {len(seen['out_writes'])} pieces of text to the output besides / instead of the serialised result"
                     elif len(a["dumps"]) != 1 or a["dumps"][0][1] != "json.dump":
                         bad = f"performs {len(a['dumps'])} json.dump calls, expected exactly one"
                     elif a["stdout"]:
@@ -318,6 +360,8 @@ def check(model: Model, report: Report) -> None:
                             extra = set(kw) - {"indent", "fp"}
                             if extra and not bad:
                                 bad = f"json.dump is given extra options {sorted(extra)} (output would differ from the JSON array of the values)"
+                        form_ok = not bad
+                    if form_ok:
                         if not bad and seen.get("find_arg") is not m["data"]:
                             bad = "the query is not applied to the document loaded from args.file"
                         if not bad and seen.get("load_arg") is not m["infile"]:
@@ -393,6 +437,49 @@ def check(model: Model, report: Report) -> None:
                 report.fail(rule, site, key, f"CLI on {name}: {bad}", file=fn.file, line=fn.line)
             else:
                 report.ok(rule, site, key, detail={"paths": len(runs)})
+    # ---- serialisation failure (A1: values nested about as deeply as the interpreter's stack; the document loads,
+    # the result is one level deeper and the pure-Python pretty printer needs several frames per level)
+    report.rule("R20.9", "a result that cannot be serialised (RecursionError from json.dump / json.dumps) is reported on one line with a non-zero exit, no traceback unless --debug, and nothing has been written to the output by then (the result is serialised completely before the first write)")
+    for pretty in (False, True):
+        for debug in (False, True):
+            key = f"serialise:RecursionError:{'pretty' if pretty else 'compact'}:{'debug' if debug else 'normal'}"
+            try:
+                runs = scenario(model, "inline", debug, pretty, "ok", "ok", "ok", dump_out="RecursionError")
+            except Unsupported as err:
+                report.undecided("R20.9", site, f"{key}: {err}")
+                continue
+            bad = None
+            for run in runs:
+                a = analyse(run)
+                if run.kind == "return":
+                    bad = "returns normally (exit status 0) although the result could not be serialised"
+                    continue
+                exc = run.value
+                is_exit = isinstance(exc, HostExc) and exc.name == "SystemExit"
+                if any(e[1] == "json.dump" for e in a["dumps"]):
+                    bad = "streams the result into the output with json.dump: a failure while serialising leaves a partial result behind (serialise with json.dumps first, then write)"
+                    continue
+                if debug:
+                    if not is_exit and not (isinstance(exc, HostExc) and exc.name == "RecursionError"):
+                        bad = f"--debug re-raises {describe(exc)!r} instead of the original RecursionError"
+                    continue
+                if not is_exit:
+                    bad = "the RecursionError escapes as an unhandled exception (traceback) instead of a one-line diagnostic and a non-zero exit"
+                    continue
+                if len(a["writes"]) != 1:
+                    bad = f"writes {len(a['writes'])} diagnostics to stderr, expected exactly one line"
+                    continue
+                ol = one_line(a["writes"][0][2][0])
+                if ol:
+                    bad = ol
+                    continue
+                code = a["exits"][-1][2][0] if a["exits"] and a["exits"][-1][2] else Const(None)
+                if not (isinstance(code, Const) and isinstance(code.value, int) and not isinstance(code.value, bool) and code.value != 0):
+                    bad = f"exits with status {describe(code)!r}, expected a non-zero integer"
+            if bad:
+                report.fail("R20.9", site, key.rsplit(":", 2)[0] + (":partial-output" if "partial" in bad else ":traceback" if "escapes" in bad else ":other"), f"CLI on a result nested too deeply to serialise ({key}): {bad}", file=fn.file, line=fn.line)
+            else:
+                report.ok("R20.9", site, key, detail={"paths": len(runs)})
     check_setup_parser(model, report, "R20.6")
     report.touched(site)
     report.extra["explanation"] = "C20: handle_path_command interpreted with compile/json.load/find replaced by outcome injectors (every JSONPathError subclass, decode errors, success) x debug x pretty x query source; effects on stderr/exit/output sink compared."
